@@ -5,6 +5,12 @@ V = "/verif"
 R_NOTE = "Trusts the Go reference model to state the property (it is ~100 lines written from the statement, not from the implementation) and the instrumented node lambdas to report executions faithfully; native goroutine scheduling is not controlled here (completion-order independence is C03's business); bounds as stated in the evidence rule."
 S_NOTE = "Trusts the source rewriter + vsched shim to model Go channel/select/mutex/once/atomic semantics; sequential consistency at synchronisation granularity (node bodies are atomic between explicit yields); happens-before state caching assumes the protocol code is data-race free (races are the business of the separate free-running -race pass); map iteration order restricted to ascending and descending (both explored)."
 checks = {
+ "C05": dict(engine="R", technique="exhaustive enumeration of interrupt/resume histories (programs x interrupt point sets x branch outcomes x resume paradigm patterns) replayed call by call on the implementation through a byte-level store; differential against the uninterrupted reference-model run",
+   text="Every history within the bounds (all small flat shapes in the three modes, curated nested graphs incl. cycles through a sub-graph node, re-run nodes; every set of <=2 interrupt points per nesting level; every branch-outcome sequence; Invoke/Stream/alternating resumes) is executed to completion on the real implementation with real serialisation; final output and the accumulated multiset of (node, input) executions must equal the uninterrupted model run. Right level: interrupt points are crash points of a deterministic history; the space of short histories is finite and enumerable.",
+   note=R_NOTE, design="3/C05"),
+ "C06": dict(engine="R", technique="exhaustive enumeration of interrupt/resume histories (same space as C05) with an ordering/reporting oracle evaluated on every call of every history",
+   text="On the same exhaustive set of histories as C05: a before-node (at any nesting level, incl. direct successors of START) starts only after an interrupt that reported it; after an after-node completes no successor starts on its output and the interrupt lists it unless the run finished; interrupt info is extractable and consistent; with an id exactly one checkpoint is written iff the call returns an interrupt, without id none.",
+   note=R_NOTE, design="3/C06"),
  "C03": dict(engine="S", technique="stateless exhaustive interleaving exploration of real graph runs (executor goroutines vs run loop) under a controlled scheduler, iterative preemption bounding, both map orders",
    text="For graph shapes with 2-3 concurrently runnable nodes (Pregel fan-out, DAG, eager Workflow, nested graphs), with yields, errors and panics in node bodies, every interleaving of the executor goroutines and the run loop within the preemption bound is executed on the real taskManager; result and executed set must equal the sequential model, every started node is collected exactly once, no hang, nothing left blocked. Right level: completion order is a schedule quantifier over a tiny hand-off protocol (1-slot channel + overflow list + mutex).",
    note=S_NOTE, design="3/C03"),
